@@ -114,3 +114,30 @@ class Timer:
 
     def s(self):
         return round(time.time() - self.t0, 3)
+
+
+_crate_root = []
+
+
+def crate_root():
+    """Directory holding the kani/, replay/ and shims/ crates.  For /repo it is /verif itself; when VERIF_REPO
+    points elsewhere (developer: checking a scratch worktree without touching /repo) a copy with the rsass path
+    dependency rewritten is kept under the cache."""
+    if REPO == "/repo":
+        return VERIF
+    if _crate_root:
+        return _crate_root[0]
+    import shutil
+    root = os.path.join(CACHE, "crates")
+    for name in ("kani", "replay", "shims"):
+        dst = os.path.join(root, name)
+        shutil.rmtree(dst, ignore_errors=True)
+        shutil.copytree(os.path.join(VERIF, name), dst, ignore=shutil.ignore_patterns("target"))
+    for name in ("kani", "replay"):
+        t = os.path.join(root, name, "Cargo.toml")
+        with open(t) as f:
+            txt = f.read()
+        with open(t, "w") as f:
+            f.write(txt.replace('path = "/repo/rsass"', 'path = "%s"' % RSASS))
+    _crate_root.append(root)
+    return root
